@@ -355,6 +355,9 @@ def compare(orig_norm, new):
 def classify(cls, key, old, new, spec_ctrl=None):
     """stable failure key for one difference"""
     if cls.startswith("Control"):
+        # the statement is about the DICTIONARY: the two condition TEXTS are compared as they are; when they differ in
+        # spacing only, the spacing shows another nesting of AND/OR (str() of And/OrCondition pads its operands) -- the
+        # dictionary path still writes the tree in order (e0050eda repaired the INP writer, not Rule.to_dict)
         if key == "condition" and isinstance(old, str) and isinstance(new, str) and old.split() == new.split():
             return "rule-condition-mixed-and-or-regrouped"
         return "control-%s-%s" % (cls.split(":")[1], key)
